@@ -12,7 +12,11 @@ Programs come from three sources
     C04 (variables of every kind, subprograms, Dict), C06 (in-place addition),
     C07 (packet variables), C08 (array-map declaration sets), C09 (hash-map
     variables, Dict programs) - their `work` functions run unchanged, only
-    their per-program `run_case` is rebound to "build and load";
+    their per-program functions (`run_case`, `run_prog`, `run_guard_case`)
+    are replaced by adapters that "build and load"; the adapters take the
+    arguments they know by name and ignore parameters added later, the
+    signatures are inspected when this module is imported (`SIG_PROBLEMS`)
+    and a start-up self-test demands at least one program of every family;
  2. dedicated families written in a small JSON-able statement language that
     is interpreted onto the real DSL (`SpecProg`): hash-map variables in
     every position, Dict update/lookup, ktime/prandom, subprograms, a stack
@@ -36,6 +40,7 @@ design is not implemented.
 """
 import contextlib
 import hashlib
+import inspect
 import itertools
 import operator
 import os
@@ -85,6 +90,9 @@ KF_REOWN = "C05-restored-registers-unowned"
 KF_WIDE = "C05-hashvar-set-reads-8-bytes-of-narrow-source"
 KF_TEMP = "C05-temporary-below-full-stack"
 KF_EXIT = "C05-else-after-exit-unreachable-jump"
+KF_ELIF = "C05-bittest-else-in-elif-chain"
+KF_SAMEKIND = "C05-two-maps-of-one-kind-out-of-bounds"
+KF_BTEXIT = "C05-bittest-else-exit-unreachable-jump"
 
 
 def _try_import(name):
@@ -109,6 +117,121 @@ UNAVAILABLE = {n: e for n, e in (("c01", _e01), ("c02", _e02), ("c03", _e03),
 
 def tup(x):
     return tuple(tup(y) for y in x) if isinstance(x, (list, tuple)) else x
+
+
+# ---- the coupling to the other harnesses: which of their functions this
+# module replaces or calls, and with which parameters.  Inspected once, here;
+# run() and replay() refuse to work (core.Internal naming the function) when
+# a signature is no longer understood.
+SIG_PROBLEMS = []
+_MODS = {"c01": c01, "c02": c02, "c03": c03, "c04": c04, "c06": c06,
+         "c07": c07, "c08": c08, "c09": c09}
+
+
+def _lookup(short, qual):
+    mod = _MODS[short]
+    if mod is None:
+        return None, None
+    obj = mod
+    for part in qual.split("."):
+        obj = getattr(obj, part, None)
+        if obj is None:
+            SIG_PROBLEMS.append(f"{mod.__name__}.{qual} does not exist any "
+                                f"more")
+            return None, None
+    try:
+        params = list(inspect.signature(obj).parameters.values())
+    except (TypeError, ValueError) as ex:
+        SIG_PROBLEMS.append(f"{mod.__name__}.{qual}: signature cannot be "
+                            f"inspected ({ex})")
+        return None, None
+    return obj, params
+
+
+def _describe(params):
+    return "(" + ", ".join(str(p) for p in params) + ")"
+
+
+def understood(short, qual, lead, keywords=()):
+    """a function / class of another harness that THIS module calls with the
+    positional arguments `lead` (and the keyword arguments `keywords`): its
+    parameters must begin with exactly these names, every further parameter
+    must be optional.  -> the object, or None (problem recorded)"""
+    obj, params = _lookup(short, qual)
+    if obj is None:
+        return None
+    names = [p.name for p in params]
+    full = f"{_MODS[short].__name__}.{qual}"
+    if names[:len(lead)] != list(lead):
+        SIG_PROBLEMS.append(
+            f"the signature of {full}{_describe(params)} is no longer "
+            f"understood: C05 calls it with the positional arguments "
+            f"({', '.join(lead)})")
+        return None
+    for p in params[len(lead):]:
+        if p.name in keywords:
+            continue
+        if p.default is p.empty and p.kind not in (p.VAR_POSITIONAL,
+                                                    p.VAR_KEYWORD):
+            SIG_PROBLEMS.append(
+                f"the signature of {full}{_describe(params)} is no longer "
+                f"understood: the added parameter '{p.name}' has no default "
+                f"and C05 does not know what to pass")
+            return None
+    missing = [k for k in keywords if k not in names]
+    if missing:
+        SIG_PROBLEMS.append(
+            f"the signature of {full}{_describe(params)} is no longer "
+            f"understood: C05 passes the keyword argument(s) "
+            f"{', '.join(missing)}")
+        return None
+    return obj
+
+
+_ADAPTERS = []
+
+
+def adapter(short, name, lead, fn):
+    """`fn` is to stand in for the per-program function `name` of another
+    harness, which that harness' own `work` calls.  The original's
+    parameters must begin with the names `lead` (what C05 knows about);
+    parameters added behind them are tolerated and ignored.  The stand-in
+    accepts whatever the original accepts, positionally or by keyword, and
+    hands `fn` the arguments named in fn's own signature."""
+    obj, params = _lookup(short, name)
+    if obj is None:
+        return
+    full = f"{_MODS[short].__name__}.{name}"
+    names = [p.name for p in params]
+    if names[:len(lead)] != list(lead):
+        SIG_PROBLEMS.append(
+            f"the signature of {full}{_describe(params)} is no longer "
+            f"understood: C05 replaces this function and expects it to "
+            f"begin with ({', '.join(lead)})")
+        return
+    sig = inspect.Signature(params)
+    wanted = list(inspect.signature(fn).parameters)
+    if not set(wanted) <= set(lead):
+        raise core.Internal(f"C05: the stand-in for {full} wants {wanted}")
+
+    def stand_in(*args, **kwargs):
+        try:
+            ba = sig.bind(*args, **kwargs)
+        except TypeError as ex:
+            raise core.Internal(
+                f"C05: {full}{_describe(params)} was called with arguments "
+                f"that do not fit the signature it had when C05 was "
+                f"imported: {ex}")
+        ba.apply_defaults()
+        return fn(*[ba.arguments[n] for n in wanted])
+    stand_in.__name__ = f"c05_stand_in_for_{short}_{name}"
+    _ADAPTERS.append((_MODS[short], name, stand_in))
+
+
+def check_signatures():
+    if SIG_PROBLEMS:
+        raise core.Internal("C05 reuses the program enumerators of other "
+                            "harnesses; " + "; ".join(SIG_PROBLEMS))
 
 
 # ====================================================================
@@ -453,6 +576,50 @@ def seam_wide():
         HM.HashGlobalVarDesc.__set__ = orig
 
 
+@contextlib.contextmanager
+def seam_generic_else():
+    """defect model for KF_ELIF and KF_BTEXIT (the one C03 uses for
+    C03-bittest-else-in-elif-chain): bit tests (AndComparison, the one
+    comparison without an inverse jump) use the generic Else - a jump over
+    the Else part behind the with-body - instead of moving the Else part in
+    front of the with-body when the block is left"""
+    import ebpfcat.ebpf as eb
+    orig = eb.AndComparison.Else
+    eb.AndComparison.Else = eb.Comparison.Else
+    try:
+        yield
+    finally:
+        eb.AndComparison.Else = orig
+
+
+@contextlib.contextmanager
+def seam_samekind():
+    """defect model for KF_SAMEKIND (C08-two-maps-of-one-kind-share-base-
+    register seen through the verifier): the maps of one class share the
+    class's base register, which points to the value of the map initialised
+    last; an access to a variable of the other map is refused when it lies
+    beyond that value.  Modelled deviation: every map of a class gets the
+    value size of the largest map of that class of the program - nothing
+    else changes, in particular not the generated instructions"""
+    orig = AM.ArrayMap.collect
+
+    def collect(self, ebpf):
+        size = orig(self, ebpf)
+        if not size:
+            return size
+        for cls in type(ebpf).__mro__:
+            for v in cls.__dict__.values():
+                if isinstance(v, AM.ArrayMap) and v is not self \
+                        and type(v) is type(self):
+                    size = max(size, orig(v, ebpf))
+        return size
+    AM.ArrayMap.collect = collect
+    try:
+        yield
+    finally:
+        AM.ArrayMap.collect = orig
+
+
 SCALAR = "RN invalid mem access 'scalar'"
 # id -> (trigger, admissible complaints, generator seam or None)
 DEFECTS = {
@@ -472,6 +639,15 @@ DEFECTS = {
                 "RN invalid mem access 'map_ptr'",
                 "RN invalid mem access 'fp'",
                 "RN invalid mem access 'pkt'"}, seam_reown),
+    KF_SAMEKIND: ("same-kind-maps",
+                  {"RN min value is outside of the allowed memory range"},
+                  seam_samekind),
+    # `with <bit test> as Else: ..` / `with Else: ..; exit()`: the Else part
+    # of a bit test is put in FRONT of the with-body; the jump over the
+    # with-body that follows its EXIT can never be reached (the mirror
+    # image of KF_EXIT, which stays as narrow as it is)
+    KF_BTEXIT: ("bittest-else-exit", {"unreachable insn N"},
+                seam_generic_else),
     KF_WIDE: ("hash-set-narrow",
               {"invalid read from stack RN off=N size=N",
                "invalid indirect access to stack RN off=N size=N",
@@ -479,7 +655,18 @@ DEFECTS = {
                "RN max value is outside of the allowed memory range",
                "RN offset is outside of the packet"}, seam_wide),
 }
-DEFECT_ORDER = [KF_XADD, KF_R0, KF_DICT, KF_REOWN, KF_WIDE]
+DEFECT_ORDER = [KF_XADD, KF_R0, KF_DICT, KF_REOWN, KF_WIDE, KF_SAMEKIND,
+                KF_BTEXIT]
+# KF_ELIF: an else-if chain with a bit test as a link (C03's finding
+# C03-bittest-else-in-elif-chain seen through the verifier): AndComparison
+# moves its Else block in front of the body after the other links of the
+# chain recorded instruction indices; jumps land in the wrong place or an
+# instruction (half of a 64-bit load) is overwritten.  Defect model as in
+# C03 (seam_generic_else): bit tests use the generic jump-over-Else.
+ELIF_MSGS = {"unreachable insn N", "invalid bpf_ld_immN insn",
+             "BPF_ALU uses reserved fields", "BPF_MOV uses reserved fields",
+             "BPF_LD_IMMN uses reserved fields",
+             "misaligned stack access off N+N+N size N"}
 TEMP_MSGS = {"invalid write to stack RN off=N size=N",
              "invalid stack off=N size=N",
              "invalid indirect access to stack RN off=N size=N",
@@ -516,10 +703,41 @@ def rebuild(family, shape, kfs):
         return code, load(code)
 
 
+def classify_elif(family, shape, norm, code, trig):
+    """KF_ELIF: trigger (a bit test with an Else as a link of an else-if
+    chain) + a complaint documented for it + the same program generated
+    with `AndComparison.Else = Comparison.Else` (seam_generic_else, the
+    defect model of C03-bittest-else-in-elif-chain) differs and loads.  If what
+    remains then is exactly the unreachable jump behind a body that ends in
+    exit() (KF_EXIT: its trigger, its complaint), both are named."""
+    if norm not in ELIF_MSGS:
+        return None
+    with seam_generic_else(), World() as w:
+        try:
+            code2 = BUILDERS[family](shape, w)
+        except core.Internal:
+            raise
+        except Exception:
+            return None
+    if canonical(code2) == canonical(code):
+        return None         # the modelled deviation does not touch it
+    v2 = load(code2)
+    if v2 is None:
+        return KF_ELIF
+    if "exit-then-else" in trig and \
+            normalise(distinctive(v2[1])) == "unreachable insn N":
+        return [KF_ELIF, KF_EXIT]
+    return None
+
+
 def classify(family, shape, norm, code, trig):
     """-> known-finding id(s) or None"""
     if "temp-below-512" in trig and norm in TEMP_MSGS:
         return KF_TEMP          # no repair exists: trigger + message only
+    if "elif-bittest" in trig:
+        kf = classify_elif(family, shape, norm, code, trig)
+        if kf is not None:
+            return kf
     if "exit-then-else" in trig and norm == "unreachable insn N":
         return KF_EXIT
     cands = [k for k in DEFECT_ORDER if DEFECTS[k][0] in trig]
@@ -540,7 +758,7 @@ def classify(family, shape, norm, code, trig):
 # ====================================================================
 # 1. reused enumerators
 # ====================================================================
-CFG = dict(stride={}, seed=0)
+CFG = dict(stride={}, seed=0, dry=False)
 
 
 def take(family, key):
@@ -552,13 +770,44 @@ def take(family, key):
     return zlib.crc32(repr(key).encode()) % k == CFG["seed"] % k
 
 
+def offer(res, family, slice_, key, shape, subs=(), outside=None,
+          triggers=()):
+    """one program a reused enumerator yields.  It is counted (the self-test
+    wants at least one program of every family and sub-family), and - if it
+    is in this run's slice `slice_` - built and judged.  `shape`, `outside`
+    and `triggers` may be functions: they are only needed for programs in
+    the slice."""
+    res.count("yielded:" + family)
+    for s in subs:
+        res.count(f"yielded:{family}/{s}")
+    if CFG["dry"] or not take(slice_, key):
+        return
+    if callable(shape):
+        shape = shape()
+    if callable(outside):
+        outside = outside()
+    if callable(triggers):
+        triggers = triggers()
+    res.count("enumerated:slice:" + slice_)
+    submit(res, family, shape, outside, triggers)
+
+
+# operators of the expression trees of C01 / C02; everything else is a leaf
+# (a new kind of leaf of those harnesses needs no change here)
+_UNARY = ("neg", "abs")
+
+
+def _is_op(tree):
+    return tree[0] in BINOPS or tree[0] in _UNARY or tree[0] in ("/", "cmp")
+
+
 def const_trouble(tree, W):
     """a constant the user wrote that no instruction can carry: shift amount
     outside [0, W), division by the constant 0"""
     k = tree[0]
-    if k in ("reg", "loc", "pkt", "arr", "const"):
+    if not _is_op(tree):
         return None
-    if k in ("neg", "abs"):
+    if k in _UNARY:
         return const_trouble(tree[1], W)
     if k == "cmp":
         return const_trouble(tree[2], W) or const_trouble(tree[3], W)
@@ -577,7 +826,7 @@ def const_value(tree):
     k = tree[0]
     if k == "const":
         return tree[1]
-    if k in ("reg", "loc", "pkt", "arr", "cmp"):
+    if not _is_op(tree) or k == "cmp":
         return None
     vals = [const_value(t) for t in tree[1:]]
     if any(v is None for v in vals):
@@ -594,53 +843,155 @@ def const_value(tree):
         return None
 
 
+def _has_prefix(fmt):
+    return isinstance(fmt, str) and len(fmt) > 1 and fmt[0] in "<>!"
+
+
+def _mentions_leaf(tree, kind):
+    if not isinstance(tree, (tuple, list)) or not tree:
+        return False
+    if tree[0] == kind:
+        return True
+    return _is_op(tree) and any(_mentions_leaf(t, kind) for t in tree[1:])
+
+
 # ---- C01
+_c01_Prog = understood("c01", "Prog", ("tree", "dest", "alias"))
+understood("c01", "width_of", ("tree", "dest"))
+understood("c01", "work", ("item", "res"))
+understood("c01", "run", ("ctx",))
+
+
 def _b_c01(s, w):
-    return c01.Prog(tup(s["tree"]), tup(s["dest"]), s["alias"]).b._code
+    return _c01_Prog(tup(s["tree"]), tup(s["dest"]), s["alias"]).b._code
 
 
-def _c01_outside(tree, dest):
+def _c01_case(tree, dest, alias, res):
     # demand less: a shift constant must be inside the narrower of the
     # statement's width and the width the operands suggest
-    return const_trouble(tree, c01.width_of(tree, dest))
+    subs = ["idx"] if _mentions_leaf(tree, "idx") else []
+    if dest[0] != "reg" and _has_prefix(dest[1]):
+        subs.append("prefixed")
+    offer(res, "c01", "c01", (tree, dest, alias),
+          dict(tree=tree, dest=dest, alias=alias), subs,
+          lambda: const_trouble(tree, c01.width_of(tree, dest)))
 
 
-def _c01_case(tree, dest, alias, vectors, res, kernel_every=0, caseno=0):
-    shape = dict(tree=tree, dest=dest, alias=alias)
-    if take("c01", (tree, dest, alias)):
-        submit(res, "c01", shape, _c01_outside(tree, dest))
+adapter("c01", "run_case", ("tree", "dest", "alias", "vectors", "res"),
+        _c01_case)
 
 
 # ---- C02
+_c02_Prog = understood("c02", "Prog", ("tree", "dest", "alias"))
+understood("c02", "items_for", ("ctx",))
+understood("c02", "work", ("item", "res"))
+
+
 def _b_c02(s, w):
     dest = s["dest"]
-    return c02.Prog(tup(s["tree"]), None if dest is None else tup(dest),
-                    s["alias"]).b._code
+    return _c02_Prog(tup(s["tree"]), None if dest is None else tup(dest),
+                     s["alias"]).b._code
 
 
-def _c02_case(tree, dest, alias, envs, res, kernel=False):
-    shape = dict(tree=tree, dest=dest, alias=alias)
-    if take("c02", (tree, dest, alias)):
-        submit(res, "c02", shape, const_trouble(tree, 32))
+def _c02_case(tree, dest, alias, res):
+    subs = ["prefixed"] if dest is not None and dest[0] != "reg" \
+        and _has_prefix(dest[1]) else []
+    offer(res, "c02", "c02", (tree, dest, alias),
+          dict(tree=tree, dest=dest, alias=alias), subs,
+          lambda: const_trouble(tree, 32))
+
+
+adapter("c02", "run_case", ("tree", "dest", "alias", "envs", "res"),
+        _c02_case)
 
 
 # ---- C03
+_c03_Prog = understood("c03", "Prog", ("stmts",))
+understood("c03", "stmts_from_json", ("js",))
+understood("c03", "items_for", ("ctx",))
+understood("c03", "work", ("item", "res"))
+
+
 def _b_c03(s, w):
-    return c03.Prog(c03.stmts_from_json(core.jsonable(s["stmts"]))).b._code
+    return _c03_Prog(c03.stmts_from_json(core.jsonable(s["stmts"]))).b._code
 
 
-def _c03_case(stmts, envs, res, kernel=False, family=""):
-    if take("c03", stmts):
-        submit(res, "c03", dict(stmts=stmts, sub=family))
+def _bittest(tree):
+    """can the condition be an AndComparison (jump-if-bits-set, the one
+    comparison without an inverse): `a & b`, `(a & b) != 0`, a bit field,
+    `bitfield != 0`"""
+    return tree[0] in ("jset", "bit", "nz") or \
+        (tree[0] == "cmp" and tree[1] == "!=")
+
+
+def _c03_triggers(stmts):
+    """exit-then-else: a with-block that ends in exit() and has an Else
+    part; elif-bittest: a bit test that is a link of an else-if chain and
+    has an Else (a further link or the final Else); bittest-else-exit: a
+    with-block on a bit test whose Else part ends in exit()"""
+    t = set()
+
+    def walk(stmts):
+        for s in stmts or ():
+            if s[0] == "if":
+                if s[3] is not None and s[2] and s[2][-1][0] == "x":
+                    t.add("exit-then-else")
+                if s[3] and s[3][-1][0] == "x" and _bittest(s[1]):
+                    t.add("bittest-else-exit")
+                walk(s[2])
+                walk(s[3])
+            elif s[0] == "chain":
+                links, final = s[1], s[2]
+                for i, (tree, body) in enumerate(links):
+                    if i + 1 < len(links) or final is not None:
+                        if body and body[-1][0] == "x":
+                            t.add("exit-then-else")
+                        if _bittest(tree):
+                            t.add("elif-bittest")
+                    walk(body)
+                walk(final)
+    walk(stmts)
+    return t
+
+
+def _c03_subs(stmts, family):
+    r = repr(stmts)
+    subs = [family or "unnamed"]
+    if "'chain'" in r:
+        subs.append("chain")
+    if "('x'," in r:
+        subs.append("exit")
+    return subs
+
+
+def _c03_case(stmts, res, family):
+    subs = _c03_subs(stmts, family)
+    slice_ = "c03x" if "chain" in subs or "exit" in subs else \
+        "c03bf" if family == "bf" else "c03"
+    offer(res, "c03", slice_, stmts, dict(stmts=stmts, sub=family), subs,
+          triggers=lambda: _c03_triggers(stmts))
+
+
+adapter("c03", "run_prog", ("stmts", "envs", "res", "kernel", "family"),
+        _c03_case)
 
 
 # ---- C04
+_c04_Prog = understood("c04", "Prog", ("shape", "stmt", "hist"))
+understood("c04", "shape_from", ("j",))
+understood("c04", "shape_json", ("shape",))
+understood("c04", "work", ("item", "res"))
+understood("c04", "run", ("ctx",))
+
+
 def _b_c04(s, w):
     shape = c04.shape_from(core.jsonable(s["shape"]))
+    hist = s.get("hist")
     old = c04.FakeMaps
     c04.FakeMaps = RealFake
     try:
-        return c04.Prog(shape, tup(s["stmt"])).code
+        return _c04_Prog(shape, tup(s["stmt"]),
+                         tup(hist) if hist else None).code
     finally:
         c04.FakeMaps = old
 
@@ -648,6 +999,10 @@ def _b_c04(s, w):
 def _c04_triggers(stmt):
     t = set()
     k = stmt[0]
+    if k == "in":
+        # ("in", place, inner statement, member, access): the inner
+        # statement inside a Dict lookup block or its Else
+        return _c04_triggers(stmt[2]) | {"dict-call", "helper-restore"}
     if k == "iadd" and stmt[1][0] in ("pv", "pw"):
         t.add("xadd-pkt")
     if k == "hget":
@@ -661,78 +1016,307 @@ def _c04_triggers(stmt):
     return t
 
 
-def _c04_case(shape, stmt, res, caseno):
-    if take("c04", (shape, stmt)):
-        submit(res, "c04", dict(shape=c04.shape_json(shape), stmt=stmt),
-               triggers=_c04_triggers(stmt))
+def _c04_case(shape, stmt, hist, res):
+    subs = []
+    if stmt[0] == "in":
+        subs.append("lookup-block")
+    if hist:
+        subs.append("history")
+    slice_ = "c04h" if hist else "c04in" if stmt[0] == "in" else "c04"
+    offer(res, "c04", slice_, (shape, stmt, hist),
+          lambda: dict(shape=c04.shape_json(shape), stmt=stmt,
+                       hist=list(hist) if hist else None),
+          subs, triggers=lambda: _c04_triggers(stmt))
 
 
-# ---- C06
+adapter("c04", "run_case", ("shape", "stmt", "hist", "res", "caseno"),
+        _c04_case)
+
+
+# ---- C06: one program = (memory kind, format, one or two statements)
+_c06_Inst = understood("c06", "Inst", ("cfg", "i", "fake"))
+understood("c06", "configs", ("ctx",))
+C06_PACKET = ("pktvar", "pktarr", "rawsum", "rawptr")
+
+
 def _b_c06(s, w):
+    kind, fmt, stmts = s["prog"]
     fake = RealFake()
     with fake.bound():
-        return c06.Inst(tup(s["cfg"]), 0, fake).code
+        return _c06_Inst((kind, fmt, (tup(stmts),)), 0, fake).code
 
 
-def _c06_item(cfg, res):
-    kind, fmt, opsym, form = cfg
-    trig = {"xadd-pkt"} if kind in ("pktvar", "pktarr", "rawsum",
-                                    "rawptr") else set()
-    submit(res, "c06", dict(cfg=cfg), triggers=trig)
+def _c06_triggers(shape):
+    return {"xadd-pkt"} if shape["prog"][0] in C06_PACKET else set()
+
+
+def _c06_programs(ctx):
+    """the distinct programs of the configurations of C06 (a configuration
+    is several program instances on shared memory)"""
+    seen, out = set(), []
+    for item in c06.configs(ctx):
+        try:
+            kind, fmt, progs = item[0]
+            progs = [tuple(tuple(st) for st in p) for p in progs]
+            if not all(len(st) == 3 for p in progs for st in p):
+                raise ValueError("statement is not (operator, form, index)")
+        except (TypeError, ValueError, IndexError) as ex:
+            raise core.Internal(
+                "C05: an item of harness.c06_xadd.configs() is no longer "
+                "((kind, format, per-instance statement lists), ...): "
+                f"{item!r:.200} ({ex})")
+        for p in progs:
+            if (kind, fmt, p) not in seen:
+                seen.add((kind, fmt, p))
+                out.append((kind, fmt, p))
+    return out
+
+
+def _c06_item(prog, res):
+    kind, fmt, stmts = prog
+    subs = []
+    zero = getattr(c06, "ZERO_FORMS", ())
+    if any(st[1] in zero for st in stmts):
+        subs.append("zero-amount")
+    if len(stmts) > 1:
+        subs.append("two-statements")
+    shape = dict(prog=prog)
+    offer(res, "c06", "c06", prog, shape, subs,
+          triggers=lambda: _c06_triggers(shape))
 
 
 # ---- C07
+_c07_Prog = understood("c07", "Prog", ("case",))
+_c07_GuardProg = understood("c07", "GuardProg", ("case",))
+understood("c07", "work", ("item", "res"))
+understood("c07", "run", ("ctx",))
+
+
 def _b_c07(s, w):
+    if "guards" in s:
+        g = s["guards"]
+        return _c07_GuardProg(dict(min=g["min"],
+                                   top=core.jsonable(g["top"]))).code
     c = s["case"]
-    return c07.Prog((c[0], c[1], c[2], c[3], tup(c[4]))).code
+    return _c07_Prog((c[0], c[1], c[2], c[3], tup(c[4]))).code
 
 
-def _c07_case(case, plan, seed, res, caseno, kernel_every):
-    if take("c07", case):
-        op = case[4]
-        trig = {"xadd-pkt"} if op[0] == "ip" and op[1] in ("+=", "-=") \
-            else set()
-        submit(res, "c07", dict(case=case), triggers=trig)
+def _c07_triggers(shape):
+    if "guards" in shape:
+        return set()
+    op = shape["case"][4]
+    return {"xadd-pkt"} if op[0] == "ip" and op[1] in ("+=", "-=") else set()
+
+
+def _c07_localfmt(op):
+    if op[0] == "rd" and op[1] == "loc":
+        return op[2]
+    if op[0] == "wv":
+        return op[1]
+    if op[0] == "ip" and op[2] == "loc":
+        return op[3]
+    return None
+
+
+def _c07_case(case, res):
+    subs = ["single-access"]
+    if _has_prefix(_c07_localfmt(case[4])):
+        subs.append("prefixed-local")
+    shape = dict(case=case)
+    offer(res, "c07", "c07", case, shape, subs,
+          triggers=lambda: _c07_triggers(shape))
+
+
+GUARD_BODY = ("gt", "ge")       # the with-body has the bytes
+GUARD_ELSE = ("lt", "le")       # the Else part has them
+
+
+def guards_outside(case):
+    """programs with several packet-size guards: every guard reloads the
+    packet pointer and the verifier forgets what the guards around it had
+    established.  A body that accesses the byte an OUTER guard promises
+    after an inner guard was entered is outside 'packet access inside a
+    packet-size guard' in the reading that demands less of the generator
+    (the access is inside the guard it relies on only textually).
+    The C07 bodies access byte n-1, n = the largest promise around them."""
+    def nodes(ns, known):
+        for op, G, opt, body, els in ns:
+            if op in GUARD_BODY:
+                kb, hb, ke, he = max(known, G), G, known, 0
+            elif op in GUARD_ELSE:
+                kb, hb, ke, he = known, 0, max(known, G), G
+            else:
+                raise core.Internal(f"C05: unknown guard comparison {op!r} "
+                                    "in a program of harness.c07_packet")
+            if kb >= 1 and kb > hb:
+                return True
+            if opt == "else" and ke >= 1 and ke > he:
+                return True
+            if nodes(body, kb) or nodes(els, ke):
+                return True
+        return False
+    if nodes(case["top"], case["min"] or 0):
+        return "access relies on the promise of an outer packet-size guard"
+    return None
+
+
+def _c07_guard_case(case, res):
+    try:
+        outside = guards_outside(case)
+    except (TypeError, ValueError, KeyError) as ex:
+        raise core.Internal("C05: a case of harness.c07_packet.run_guard_case "
+                            "is no longer dict(min, top=[[op, G, opt, body, "
+                            f"else], ...]): {case!r:.200} ({ex!r})")
+    offer(res, "c07", "c07g", case, dict(guards=case), ["guards"], outside)
+
+
+adapter("c07", "run_case", ("case", "plan", "seed", "res"), _c07_case)
+adapter("c07", "run_guard_case", ("case", "seed", "res"), _c07_guard_case)
 
 
 # ---- C08
+_c08_Case = understood("c08", "Case", ("layout",),
+                       keywords=("percpu", "kinds", "assign"))
+understood("c08", "layouts_with_prefix", ("k", "prefix"))
+understood("c08", "prefixes", ("k",))
+understood("c08", "valid", ("layout",))
+understood("c08", "run", ("ctx",))
+
+
 def _b_c08(s, w):
-    case = c08.Case(tup(s["layout"]), percpu=s["percpu"])
+    layout = tup(s["layout"])
+    if s.get("kinds"):
+        case = _c08_Case(layout, kinds=tuple(s["kinds"]),
+                         assign=tuple(s["assign"]))
+    else:
+        case = _c08_Case(layout, percpu=s["percpu"])
     case.read_positions()
     case.emit()
     return case.b.code()
 
 
+def _c08_triggers(shape):
+    kinds = shape.get("kinds") or ()
+    return {"same-kind-maps"} if len(set(kinds)) < len(kinds) else set()
+
+
+def _c08_subs(layout, percpu=False, kinds=None):
+    subs = ["two-maps"] if kinds else ["per-cpu" if percpu else "one-map"]
+    if any(_has_prefix(f) for f, _ in layout):
+        subs.append("prefixed")
+    return subs
+
+
 def _c08_item(item, res):
-    k, prefix, percpu = item
-    for layout in c08.layouts_with_prefix(k, prefix):
-        if k < 2 or take("c08" if k == 3 else "c08k2", (layout, percpu)):
-            submit(res, "c08", dict(layout=layout, percpu=percpu))
+    what = item[0]
+    if what == "k":
+        _, k, prefix, percpu = item
+        for layout in c08.layouts_with_prefix(k, prefix):
+            offer(res, "c08", "c08k%d" % k, (layout, percpu),
+                  dict(layout=layout, percpu=percpu),
+                  _c08_subs(layout, percpu))
+    elif what == "x":
+        for layout in item[1]:
+            offer(res, "c08", "c08x", layout,
+                  dict(layout=layout, percpu=False), _c08_subs(layout))
+    else:
+        for layout, assign, kinds in item[1]:
+            shape = dict(layout=layout, kinds=kinds, assign=assign)
+            offer(res, "c08", "c08m", (layout, assign, kinds), shape,
+                  _c08_subs(layout, kinds=kinds),
+                  triggers=_c08_triggers(shape))
+
+
+def _c08_items(ctx):
+    """declaration sets of one to three variables on an array map and of
+    one or two on a per-CPU map (enumerated here, as C08 does); from C08's
+    own work items the sets with byte-order-prefixed formats ('arrayx') and
+    the programs with two maps ('multi')"""
+    out = []
+    for k in (1, 2, 3):
+        for p in c08.prefixes(k):
+            out.append(("k", k, p, False))
+    for k in (1, 2):
+        for p in c08.prefixes(k):
+            out.append(("k", k, p, True))
+    seen = set()
+    for it in capture_items(c08, ctx):
+        try:
+            what, extra = it[0], it[5]
+            if what == "arrayx":
+                lays = [tuple((f, p) for f, p in lay) for lay in extra]
+                # (C08 also tries a lone re-declaration: no such class)
+                lays = [lay for lay in lays
+                        if lay not in seen and c08.valid(lay)]
+                seen.update(lays)
+                for i in range(0, len(lays), 8):
+                    out.append(("x", lays[i:i + 8]))
+            elif what == "multi":
+                progs = []
+                for lay, assign, kinds_list, _ in extra:
+                    lay = tuple((f, p) for f, p in lay)
+                    if not c08.valid(lay):
+                        continue
+                    for kinds in kinds_list:
+                        key = (lay, tuple(assign), tuple(kinds))
+                        if key not in seen:
+                            seen.add(key)
+                            progs.append(key)
+                for i in range(0, len(progs), 8):
+                    out.append(("m", progs[i:i + 8]))
+        except (TypeError, ValueError, IndexError) as ex:
+            raise core.Internal(
+                "C05: a work item of harness.c08_arraymap.run() is no longer "
+                "(kind, k, prefix, seed, kernel_every, extra) with extra = "
+                "layouts ('arrayx') resp. (layout, assign, kinds list, "
+                f"configurations) ('multi'): {it!r:.200} ({ex!r})")
+    return out
 
 
 # ---- C09
+_c09_HashVarCase = understood("c09", "HashVarCase", ("cfg", "backend"))
+_c09_DictCase = understood("c09", "DictCase", ("cfg", "backend"))
+understood("c09", "RealBackend", ())
+understood("c09", "hashvar_configs", ("ctx",))
+understood("c09", "dict_configs", ("ctx",))
+
+
 def _b_c09(s, w):
     be = c09.RealBackend()
     if s["kind"] == "hv":
-        c09.HashVarCase(dict(vars=[tuple(v) for v in s["vars"]]), be)
+        _c09_HashVarCase(dict(vars=[tuple(v) for v in s["vars"]]), be)
     else:
-        c09.DictCase(dict(key=tuple(s["key"]), value=tuple(s["value"]),
-                          size=s["size"], lru=s["lru"]), be)
+        _c09_DictCase(dict(key=tuple(s["key"]), value=tuple(s["value"]),
+                           size=s["size"], lru=s["lru"]), be)
     raise core.Internal("C09 case did not try to load its program")
 
 
 def _c09_item(cfg, res):
-    if "vars" in cfg:
-        submit(res, "c09", dict(kind="hv", vars=cfg["vars"]))
-    else:
-        submit(res, "c09", dict(kind="dict", **cfg))
+    try:
+        if "vars" in cfg:
+            shape = dict(kind="hv", vars=cfg["vars"])
+            fmts = [v[0] for v in cfg["vars"]]
+            subs = ["hash-map-variables"]
+        else:
+            shape = dict(kind="dict", key=cfg["key"], value=cfg["value"],
+                         size=cfg["size"], lru=cfg["lru"])
+            fmts = list(cfg["key"]) + list(cfg["value"])
+            subs = ["dict"]
+    except (TypeError, KeyError, IndexError) as ex:
+        raise core.Internal("C05: a configuration of harness.c09_hashmap is "
+                            "no longer dict(vars=[(format, default)...]) / "
+                            f"dict(key, value, size, lru): {cfg!r:.200} "
+                            f"({ex!r})")
+    if any(_has_prefix(f) for f in fmts):
+        subs.append("prefixed")
+    offer(res, "c09", "c09", shape, shape, subs)
 
 
 def capture_items(mod, ctx):
     """the work items a harness' run() would hand to core.pmap"""
     got = {}
 
-    def fake_pmap(c, fn, items, chunk=None):
+    def fake_pmap(c, fn, items, chunk=None, *more, **kw):
         got["items"] = list(items)
         return core.Result()
     old = core.pmap
@@ -741,6 +1325,9 @@ def capture_items(mod, ctx):
         mod.run(ctx)
     finally:
         core.pmap = old
+    if "items" not in got:
+        raise core.Internal(f"C05: {mod.__name__}.run() does not hand its "
+                            "work items to core.pmap any more")
     return got["items"]
 
 
@@ -760,37 +1347,27 @@ def reuse_items(ctx):
     if c07:
         out += [("c07", it) for it in capture_items(c07, sub)]
     if c06:
-        seen = []
-        for it in c06.configs(sub):
-            if it[0] not in seen:
-                seen.append(it[0])
-        out += [("c06", cfg) for cfg in seen]
+        out += [("c06", prog) for prog in _c06_programs(sub)]
     if c08:
-        for k in (1, 2, 3):
-            for p in c08.prefixes(k):
-                out.append(("c08", (k, p, False)))
-        for k in (1, 2):
-            for p in c08.prefixes(k):
-                out.append(("c08", (k, p, True)))
+        out += [("c08", it) for it in _c08_items(sub)]
     if c09:
         out += [("c09", cfg) for cfg in c09.hashvar_configs(sub)]
         out += [("c09", cfg) for cfg in c09.dict_configs(sub)]
     return out
 
 
+_rebound = []
+
+
 def _rebind():
     """the per-program step of each reused harness becomes 'build and load'
-    (module attributes of the harness modules, in this process only)"""
-    if c01:
-        c01.run_case = _c01_case
-    if c02:
-        c02.run_case = _c02_case
-    if c03:
-        c03.run_prog = _c03_case
-    if c04:
-        c04.run_case = _c04_case
-    if c07:
-        c07.run_case = _c07_case
+    (module attributes of the harness modules, in this process and the
+    workers forked from it only)"""
+    check_signatures()
+    if not _rebound:
+        for mod, name, stand_in in _ADAPTERS:
+            setattr(mod, name, stand_in)
+        _rebound.append(True)
 
 
 REUSE = {
@@ -803,6 +1380,79 @@ REUSE = {
     "c08": _c08_item,
     "c09": _c09_item,
 }
+
+# what the self-test demands of the reused enumerators: at least one
+# program of the family and of each of these kinds of programs
+EXPECTED = {
+    "c01": ("idx", "prefixed"),
+    "c02": ("prefixed",),
+    "c03": ("atom", "tree", "shtree", "block", "bf", "chain", "exit"),
+    "c04": ("lookup-block", "history"),
+    "c06": ("zero-amount", "two-statements"),
+    "c07": ("single-access", "prefixed-local", "guards"),
+    "c08": ("one-map", "per-cpu", "two-maps", "prefixed"),
+    "c09": ("hash-map-variables", "dict", "prefixed"),
+}
+
+
+def item_kind(item):
+    """what sort of work item of its harness this is (first element if that
+    is a string)"""
+    if isinstance(item, (tuple, list)) and item and isinstance(item[0], str):
+        return item[0]
+    if isinstance(item, dict):
+        return "vars" if "vars" in item else "dict"
+    return ""
+
+
+def startup_selftest(items):
+    """before any worker is started: every reused harness is available to
+    the run, hands out work items, and the first work item of each sort
+    yields programs when it is walked with the adapters in place (nothing
+    is built or loaded here)"""
+    probe = core.Result()
+    CFG["dry"] = True
+    try:
+        for fam in REUSE:
+            if fam in UNAVAILABLE:
+                continue
+            mine = [it for f, it in items if f == fam]
+            if not mine:
+                raise core.Internal(f"C05 self-test: the enumerator of "
+                                    f"{fam} hands out no work items")
+            seen = set()
+            for it in mine:
+                k = item_kind(it)
+                if k not in seen:
+                    seen.add(k)
+                    REUSE[fam](it, probe)
+            if not probe.cov.get("yielded:" + fam):
+                raise core.Internal(
+                    f"C05 self-test: the first work items of the enumerator "
+                    f"of {fam} (one of each sort: {sorted(seen)}) yield no "
+                    "program: its per-program function is no longer the one "
+                    "C05 replaces")
+    finally:
+        CFG["dry"] = False
+    return probe
+
+
+def final_selftest(res):
+    """after the run: every family and every kind of program the reused
+    enumerators are known to produce was seen at least once"""
+    missing = []
+    for fam, subs in EXPECTED.items():
+        if fam in UNAVAILABLE:
+            continue
+        for key in [fam] + [f"{fam}/{s}" for s in subs]:
+            if not res.cov.get("yielded:" + key):
+                missing.append(key)
+    if missing:
+        raise core.Internal(
+            "C05 self-test: the reused enumerators yielded no program of: "
+            + ", ".join(missing) + " (a family was lost silently: a "
+            "per-program function that C05 does not replace, an alphabet "
+            "that changed)")
 
 
 # ====================================================================
@@ -1862,15 +2512,26 @@ BUILDERS = {
 # ====================================================================
 # driver
 # ====================================================================
+# slices of the reused enumerations (1/k of ...): c03 plain blocks / c03x
+# else-if chains and bodies that exit / c03bf the bit-field comparison
+# family; c04 statements on a fresh class / c04in inside a lookup block /
+# c04h under a history of the program class; c07 single accesses / c07g
+# several guards; c08k<n> n declarations on one map / c08x byte-order
+# prefixed formats / c08m two maps
 STRIDES = {
-    "quick": dict(c01=12, c02=5, c03=5, c04=24, c07=12, c08=40, c08k2=4),
-    "thorough": dict(c01=6, c02=4, c03=2, c04=10, c07=4, c08=4),
+    "quick": dict(c01=16, c02=6, c03=9, c03x=3, c03bf=8, c04=40, c04in=40,
+                  c04h=60, c06=4, c07=20, c07g=4, c08k2=4, c08k3=40,
+                  c08m=16, c08x=2),
+    "thorough": dict(c01=12, c02=6, c03=4, c03bf=6, c04=30, c04in=60,
+                     c04h=80, c06=2, c07=8, c07g=6, c08k3=4, c08m=8),
 }
 
 
 def work(item, res):
     kind, payload = item
     _stored.clear()
+    if kind in REUSE and not _rebound:
+        raise core.Internal("C05: the adapters are not in place")
     if kind in REUSE:
         REUSE[kind](payload, res)
     elif kind in SPEC_FAMILIES:
@@ -1905,12 +2566,21 @@ def run(ctx):
     CFG["seed"] = ctx.seed
     _rebind()
     items = all_items(ctx)
+    probe = startup_selftest(items)
     # interleave the families so that every chunk costs about the same
     items = [it for _, it in sorted(
         enumerate(items), key=lambda p: (zlib.crc32(repr(p[0]).encode()),
                                          p[0]))]
     out = core.pmap(ctx, work, items, chunk=8)
     res.merge(out)
+    if out.exhaustive:      # (a run stopped by a violation flood saw less)
+        final_selftest(res)
+    res.cov["selftest"] = dict(
+        startup_programs_walked=sum(
+            v for k, v in probe.cov.items()
+            if k.startswith("yielded:") and "/" not in k),
+        families={k[8:]: v for k, v in sorted(res.cov.items())
+                  if k.startswith("yielded:")})
     res.cov["kernel_available"] = True
     res.cov["work_items"] = len(items)
     res.cov["states"] = len(res.nontrivial)
@@ -1956,20 +2626,33 @@ def replay(ctx, rep):
     res = core.Result()
     if not kern.available():
         raise core.Internal("bpf() unavailable: cannot replay")
+    check_signatures()
     c = rep["case"]
     fam, shape = c["family"], c["shape"]
-    trig = ()
+    trig, outside = (), None
+    if fam == "c06" and "cfg" in shape:
+        # replays written when a C06 configuration was one statement
+        kind, fmt, opsym, form = shape["cfg"]
+        shape = dict(prog=[kind, fmt, [[opsym, form, 0]]])
     if fam in SPEC_FAMILIES:
         trig = SPEC_FAMILIES[fam][1](shape)
+    elif fam == "c01":
+        outside = const_trouble(tup(shape["tree"]), c01.width_of(
+            tup(shape["tree"]), tup(shape["dest"])))
+    elif fam == "c02":
+        outside = const_trouble(tup(shape["tree"]), 32)
+    elif fam == "c03":
+        trig = _c03_triggers(c03.stmts_from_json(shape["stmts"]))
     elif fam == "c04":
         trig = _c04_triggers(tup(shape["stmt"]))
     elif fam == "c06":
-        trig = {"xadd-pkt"} if shape["cfg"][0] in (
-            "pktvar", "pktarr", "rawsum", "rawptr") else ()
+        trig = _c06_triggers(shape)
     elif fam == "c07":
-        op = shape["case"][4]
-        trig = {"xadd-pkt"} if op[0] == "ip" and op[1] in ("+=", "-=") \
-            else ()
+        trig = _c07_triggers(shape)
+        if "guards" in shape:
+            outside = guards_outside(shape["guards"])
+    elif fam == "c08":
+        trig = _c08_triggers(shape)
     _stored.clear()
     with World() as w:
         try:
@@ -1984,5 +2667,5 @@ def replay(ctx, rep):
         print("the kernel accepts the program")
     else:
         print("verifier log tail:\n" + verdict[1][-1500:])
-    submit(res, fam, shape, triggers=trig)
+    submit(res, fam, shape, outside, triggers=trig)
     return res.violations
